@@ -44,7 +44,7 @@ func (c *SubscriptionManager) AddSubscription(remoteDevice api.DeviceRemoteInter
 
 	clientFeature := remoteDevice.FeatureByAddress(data.ClientAddress)
 	if clientFeature == nil {
-		return fmt.Errorf("client feature '%s' in remote device '%s' not found", data.ClientAddress, *remoteDevice.Address())
+		return fmt.Errorf("client feature '%s' in remote device with SKI '%s' not found", data.ClientAddress, remoteDevice.Ski())
 	}
 	if err := c.checkRoleAndType(clientFeature, model.RoleTypeClient, *data.ServerFeatureType); err != nil {
 		return err
@@ -100,7 +100,7 @@ func (c *SubscriptionManager) RemoveSubscription(data model.SubscriptionManageme
 
 	clientFeature := remoteDevice.FeatureByAddress(data.ClientAddress)
 	if clientFeature == nil {
-		return fmt.Errorf("client feature '%s' in remote device '%s' not found", data.ClientAddress, *remoteDevice.Address())
+		return fmt.Errorf("client feature '%s' in remote device with SKI '%s' not found", data.ClientAddress, remoteDevice.Ski())
 	}
 
 	serverFeature := c.localDevice.FeatureByAddress(data.ServerAddress)
